@@ -675,6 +675,16 @@ func listPlans(c *engine.Ctx, prop string) []listPlan {
 	for _, k := range []drv.Kind{drv.MultiMem, drv.SingleMem} {
 		plans = append(plans, listPlan{cfg: drv.Config{Kind: k}, u: ud, depth: depth - 1})
 	}
+	// richer keys: characters that need XML or URL escaping in a listing, multi-byte UTF-8
+	// (byte order differs from code-point/collation order), spaces, plus and percent signs
+	ur := newListUniverse("ab/", 1, 3, "a", 0)
+	ur.name = "rich"
+	ur.keys = []string{"a b", "a%2Fb", "a&b", "a+b", "a<b>", "a\"b'", "a/é", "z", "é", "é/a&b", "€", "\U0001F600"}
+	sort.Strings(ur.keys)
+	ur.prefixes = []string{"", "a", "a ", "a%", "a&", "a+", "a<", "a\"", "a/", "a/é", "z", "é", "é/", "é/a&", "€", "\U0001F600", "\xc3"}
+	for _, k := range []drv.Kind{drv.Mem, drv.Bolt, drv.MultiMem, drv.SingleMem} {
+		plans = append(plans, listPlan{cfg: drv.Config{Kind: k}, u: ur, depth: depth - 1})
+	}
 	// versioned variant (delete-marked keys): version stacks grow with depth, so a smaller universe
 	plans = append(plans, listPlan{cfg: drv.Config{Kind: drv.Mem}, u: newListUniverse("ab/", 3, 3, "a", 6), versioned: true, depth: depth})
 	if prop == "C04" {
